@@ -180,6 +180,14 @@ class Func:
         return (self.owner.name + "." if self.owner else "") + getattr(self.node, "name", "<lambda>")
 
 
+class SuperProxy:
+    """super() inside a method: attribute lookup continues after `owner` in the MRO of the instance's class"""
+
+    def __init__(self, obj, owner):
+        self.obj = obj
+        self.owner = owner
+
+
 class Bound:
     def __init__(self, func, self_):
         self.func = func
@@ -400,7 +408,9 @@ class Interp:
                             "replace": ("builtin", "dc_replace")},
             "functools": {"cached_property": ("deco", "cached_property"), "lru_cache": ("deco", "lru_cache"),
                           "reduce": ("builtin", "reduce")},
-            "itertools": {"product": ("builtin", "product"), "takewhile": ("builtin", "takewhile")},
+            "itertools": {"product": ("builtin", "product"), "takewhile": ("builtin", "takewhile"), "permutations": ("builtin", "permutations"),
+                          "combinations": ("builtin", "combinations"), "chain": ("builtin", "chain"), "islice": ("builtin", "islice"),
+                          "zip_longest": ("builtin", "zip_longest"), "dropwhile": ("builtin", "dropwhile")},
             "operator": {"and_": ("builtin", "and_"), "or_": ("builtin", "or_"), "eq": ("builtin", "op_eq"),
                          "ne": ("builtin", "op_ne"), "lt": ("builtin", "op_lt"), "le": ("builtin", "op_le"),
                          "gt": ("builtin", "op_gt"), "ge": ("builtin", "op_ge")},
@@ -712,9 +722,10 @@ class Interp:
             raise AnalysisError("bare raise")
         try:
             v = self.resolve(self.eval(node, env, m))
-        except AnalysisError:
-            # message construction may touch opaque values; keep the class only
-            if isinstance(node, ast.Call):
+        except AnalysisError as e:
+            # building the MESSAGE may touch opaque values (str() of a version token ...): keep the class only — but never hide a
+            # problem in the exception class's own constructor
+            if isinstance(node, ast.Call) and any(k in str(e) for k in ("version token", "symbolic", "str() of")):
                 v = self.resolve(self.eval(node.func, env, m))
             else:
                 raise
@@ -888,6 +899,28 @@ class Interp:
             return stub[attr]
         if isinstance(obj, tuple) and obj and obj[0] == "module":
             return self.resolve(obj[1].ns[attr])
+        if isinstance(obj, SuperProxy):
+            inst = obj.obj
+            cls = inst.cls if isinstance(inst, AObj) else inst
+            mro = cls.mro
+            start = mro.index(obj.owner) + 1 if obj.owner in mro else 0
+            for c in mro[start:]:
+                if isinstance(c, ClassInfo) and attr in c.ns:
+                    cv = c.ns[attr]
+                    if isinstance(cv, Func):
+                        return Bound(cv, inst) if cv.kind not in ("staticmethod",) else cv
+                    return self.resolve(cv)
+                if isinstance(c, External):
+                    if attr == "__init__":
+                        def _base_init(*a, **k):
+                            if isinstance(inst, AObj):
+                                inst.f["args"] = tuple(a)
+                            return None
+                        return _base_init
+                    if attr in ("__post_init__", "__init_subclass__"):
+                        return lambda *a, **k: None
+                    raise AnalysisError(f"super().{attr} resolves to the opaque base {c.name}")
+            raise PyRaise(BuiltinExcValue(EXC["AttributeError"], (attr,)))
         if isinstance(obj, Native):
             kind = "Pattern" if hasattr(obj.obj, "pattern") else "Match"
             if attr not in Native.ALLOWED[kind]:
@@ -1140,6 +1173,18 @@ class Interp:
             if not hasattr(x, "sym_order"):
                 raise AnalysisError(f"ordering not whitelisted on symbolic {x!r}")
             return self.truth(x.sym_order(t, a, b))
+        if isinstance(a, (ASet, set, frozenset)) and isinstance(b, (ASet, set, frozenset)):
+            A = a if isinstance(a, ASet) else ASet(self, a)
+            B = b if isinstance(b, ASet) else ASet(self, b)
+            sub = all(B.has(v) for v in A.items)
+            sup = all(A.has(v) for v in B.items)
+            if t is ast.LtE:
+                return sub
+            if t is ast.GtE:
+                return sup
+            if t is ast.Lt:
+                return sub and len(A.items) < len(B.items)
+            return sup and len(A.items) > len(B.items)
         if isinstance(a, VTok) and isinstance(b, VTok):
             a, b = a.rank, b.rank
         elif isinstance(a, VTok) or isinstance(b, VTok):
@@ -1302,6 +1347,14 @@ class Interp:
         return str(v)
 
     def e_Call(self, n, env, m):
+        if isinstance(n.func, ast.Name) and n.func.id == "super" and env.get("super") is MISSING:
+            owner, first = env.get("__class__"), env.get("__first_arg__")
+            if owner is MISSING or first is MISSING:
+                raise AnalysisError("super() outside a method")
+            if n.args:
+                owner = self.resolve(self.eval(n.args[0], env, m))
+                first = self.eval(n.args[1], env, m) if len(n.args) > 1 else first
+            return SuperProxy(first, owner)
         f = self.eval(n.func, env, m)
         args = self._seq(n.args, env, m)
         kwargs = {}
@@ -1330,6 +1383,8 @@ class Interp:
             return self.pymethod(f[1], f[2], args, kwargs)
         if isinstance(f, External):
             h = self.opaque_calls.get(f.name)
+            if h is None and (f.name in EXC or f.name.endswith(("Error", "Exception", "Warning"))):
+                return BuiltinExcValue(f, tuple(a if isinstance(a, (str, int, bool, type(None))) else repr(a) for a in args))
             if h is None:
                 raise AnalysisError(f"call of opaque external {f.name}")
             return h(*args, **kwargs)
@@ -1394,6 +1449,9 @@ class Interp:
             raise PyRaise(BuiltinExcValue(EXC["TypeError"], ("unexpected kwargs", tuple(kwargs), func.qualname)))
         if isinstance(node, ast.Lambda):
             return self.eval(node.body, env, func.module)
+        if func.owner is not None:
+            env.vars["__class__"] = func.owner
+            env.vars["__first_arg__"] = args[0] if args else None
         qn = func.module.name + ":" + func.qualname
         self.fstack.append(qn)
         self.funcs_seen.add(qn)
@@ -1774,6 +1832,28 @@ class Interp:
 
     def b_product(self, *xs):
         return AIter(itertools.product(*[self.iterate(x) for x in xs]))
+
+    def b_permutations(self, x, r=None):
+        return AIter(itertools.permutations(self.iterate(x), r))
+
+    def b_combinations(self, x, r):
+        return AIter(itertools.combinations(self.iterate(x), r))
+
+    def b_chain(self, *xs):
+        return AIter(v for x in xs for v in self.iterate(x))
+
+    def b_islice(self, x, *a):
+        return AIter(itertools.islice(self.iterate(x), *a))
+
+    def b_zip_longest(self, *xs, fillvalue=None):
+        return AIter(itertools.zip_longest(*[self.iterate(x) for x in xs], fillvalue=fillvalue))
+
+    def b_dropwhile(self, f, x):
+        items = list(self.iterate(x))
+        i = 0
+        while i < len(items) and self.truth(self.call(f, [items[i]], {})):
+            i += 1
+        return AIter(items[i:])
 
     def b_takewhile(self, f, x):
         out = []
